@@ -10,7 +10,7 @@ PID = "C06"
 RULE = ("lattice: TLC enumerates every pair (and every triple of a thinned lattice) of integer-lattice states of "
         "R^n, SO(2) (multiples of pi/N), SO(3) (24 Hurwitz quaternions), time, discrete, torus, SE(2), SE(3), nested "
         "weighted compounds and wrappers, with the exact expected distance; recorded: seeded adversarial triples "
-        "(seam-crossing, antipodal, near-antipodal, coincident, 1e-9 / 1e-12 apart, on the bounds, pivot) on all 25 "
+        "(seam-crossing, antipodal, near-antipodal, coincident, 1e-9 / 1e-12 apart, on the bounds, pivot) on all 29 "
         "shipped spaces. A case is non-trivial when its class (computed by the model, resp. from the inputs) hits a "
         "case split: coincident, antipodal, seam-crossing, +-pi / q=-q representative, at the extent or on a bound; "
         "distinct = distinct hash of (space, case).")
